@@ -10,7 +10,7 @@ for P in props:
     for n in (1, 2, 3):
         src = '/tmp/seed/%s/seed%d' % (P, n)
         if not os.path.exists(os.path.join(src, 'patch.diff')): continue
-        if re.fullmatch(r'[TU]\d+', P):      # themed round: the sub-agent chose the property; stored under the next free index of that property
+        if re.fullmatch(r'[T-Z]\d+', P):      # themed round: the sub-agent chose the property; stored under the next free index of that property
             prop = json.load(open(os.path.join(src, 'meta.json'))).get('property')
             k = 1
             while os.path.exists(os.path.join(V, 'seeded', '%s-%d' % (prop, k))): k += 1
